@@ -1,17 +1,21 @@
 """C11 -- Incremental session input equals running it as one program."""
 import concurrent.futures
 import json
+import re
 
 from vplib import common, oracle, genprog
 
 LEVEL = "proof"
-RULE = ("Coq: Properties/C11.v (run_keeps_scope, toplevel_lets_persist; incremental_eq_batch_partial_* are checked INSTANCES, "
-        "there is no general incremental = batch theorem). Dynamic: generated error-free histories of 1..8 inputs mixing "
+RULE = ("Coq: Properties/C11.v (run_keeps_scope, toplevel_lets_persist; incremental_eq_batch_partial is the general theorem for "
+        "run-request histories of the C05 fragment, incremental_eq_batch_partial_instance/_all_splits are checked instances). Dynamic: generated error-free histories of 1..8 inputs mixing "
         "function / enum / struct / method definitions, toplevel lets, assignments and updates of toplevel variables, loops "
         "(while, for), blocks, calls and expressions (genprog pieces), each name defined at most once; each history is run "
         "through the real JSON session incrementally (one request per input) and as one request (inputs joined by newlines): "
         "the value reported for the last input and the concatenated stdout must be equal; a final `:locals`-free probe of "
-        "every toplevel variable is compared too. Histories whose runs are not error-free are discarded (counted). "
+        "every toplevel variable is compared too. Histories whose runs are not error-free are discarded (counted), except when the batch run is "
+        "error-free and the first failing incremental request fails on an unknown name that an earlier, successfully "
+        "answered request defined (methods are also sent before their receiver type): that is the property's "
+        "'definitions persist' sentence failing (violation kind definition-lost). "
         "Correspondence with the model (Session.handle) for histories in the modelled fragment. Non-trivial = at least 2 "
         "inputs and at least one toplevel variable or definition used by a later input.")
 META = {
@@ -22,10 +26,20 @@ META = {
                    "toplevel `let` leaves its binding in the toplevel block where every later request reads it "
                    "(toplevel_lets_persist). The equality incremental = batch itself is machine-checked only on instances "
                    "(one four-input history and all its splits) and otherwise established by differential execution on the "
-                   "binary over generated error-free histories."),
-    "level_note": ("PARTIAL. Theorem: persistence of the toplevel scope across requests on the model. NOT a theorem: the general "
-                   "incremental = batch statement (needs a frame rule for the value stack); it is search + differential "
-                   "testing. Definitions are static in the model (loading definitions, namespaces, tests are outside it and "
+                   "binary over generated error-free histories. "
+                   "UPDATE: the GENERAL theorem now exists: incremental_eq_batch_partial (coq/RefineSession.v, pinned in "
+                   "Properties/C11.v), derived from the C05 refinement of the reference semantics Ref.v. It covers every "
+                   "history of `run` requests whose inputs are non-empty lists of toplevel expressions of Refine.in_fragment "
+                   "(the whole modelled core language except break/continue outside statement position) with the parser's "
+                   "value_is_used annotation, static well-formed definitions, no limits/interrupts, that Ref.v evaluates "
+                   "without error and that the session answers with values leaving nothing pending: then the values reported "
+                   "request by request are Ref.v's, the single request with all inputs reports the last of them, and both runs "
+                   "print the same output (ref_incremental_eq_batch_partial: Ref.v threads its state through a concatenation). "
+                   "Histories with definitions between requests, errors or other commands remain differential testing."),
+    "level_note": ("PARTIAL. Theorems: persistence of the toplevel scope across requests on the model, and the general incremental = "
+                   "batch statement for run-request histories of the C05 fragment with static definitions (partial correctness: "
+                   "the reference must evaluate the inputs and the session must answer values and be idle after each request). "
+                   "Definitions are static in the model (loading definitions, namespaces, tests are outside it and "
                    "covered by the differential runs only). Trusted: Coq kernel; Machine.v / Session.v tied to the code by "
                    "differential execution."),
     "design_ref": "DESIGN.md section 5 C11",
@@ -50,7 +64,15 @@ def gen_history(rng, idx):
             inputs.append("enum En%d_%d { Aa%d_%d, Bb%d_%d(Int) }" % (idx, n_enum, idx, n_enum, idx, n_enum))
         elif k == 3:
             n_struct += 1
-            inputs.append("struct St%d_%d { fld: Int }\nfun (this: St%d_%d) twice%d(): Int { this.fld * 2 }" % (idx, n_struct, idx, n_struct, n_struct))
+            sd = "struct St%d_%d { fld: Int }" % (idx, n_struct)
+            md = "method twice%d(this: St%d_%d): Int { this.fld * 2 }" % (n_struct, idx, n_struct)
+            order = rng.randrange(3)       # one request / type first / method first (forward-declared receiver type)
+            if order == 0:
+                inputs.append(sd + "\n" + md)
+            elif order == 1:
+                inputs += [sd, md]
+            else:
+                inputs += [md, sd]
             v = g.fresh()
             g.scopes[0][v] = "Int"
             inputs.append("let %s = St%d_%d{ fld: %s }.twice%d()" % (v, idx, n_struct, g.expr("Int", 2), n_struct))
@@ -92,7 +114,7 @@ def gen_history(rng, idx):
             "string_repr(%s)" % v for v in rng.sample(vs, min(len(vs), 4))))
     else:
         inputs.append(g.expr(g.pick(genprog.TYPES), 1))
-    return inputs[-9:] if len(inputs) > 9 else inputs, vs
+    return inputs, vs
 
 
 def run_inputs(exe, reqs):
@@ -124,12 +146,38 @@ def has_exprs(src):
     return True
 
 
+_NO_SUCH = re.compile(r"(?:No such (?:variable|function|type|method)|no method named|Unbound \w+) `([A-Za-z_][A-Za-z0-9_]*)`")
+
+
+def definition_lost(inputs, inc):
+    """The property's second sentence: definitions and toplevel variables persist from one request to the next. If the
+    FIRST failing request of the incremental run fails because a name is unknown although an EARLIER request that
+    defined it was answered without error, the definition did not persist: returns a description, else None."""
+    for j, c in enumerate(inc[:len(inputs)]):
+        if c.get("kind") == "ok":
+            continue
+        m = _NO_SUCH.search(c.get("message") or "")
+        if not m:
+            return None
+        name = m.group(1)
+        d = re.compile(r"\b(?:fun|method|struct|enum|let)\s+%s\b" % re.escape(name))
+        for i in range(j):
+            if d.search(inputs[i]):
+                return ("request %d `%s` fails with %r although request %d `%s` defined `%s` and was answered %r"
+                        % (j, inputs[j][:80], c.get("message"), i, inputs[i][:80], name, inc[i].get("value")))
+        return None
+    return None
+
+
 def check_one(exe, item):
     inputs, vs = item
     inc, d1, e1, bat, d2, e2 = compare(exe, inputs, vs)
     if d1 or d2 or len(inc) != len(inputs) + 1 or len(bat) != 2:
         return ("died", "session died or lost responses: %s" % (e1 or e2)[-300:])
     if any(c.get("kind") != "ok" for c in inc) or any(c.get("kind") != "ok" for c in bat):
+        lost = definition_lost(inputs, inc)
+        if lost and all(c.get("kind") == "ok" for c in bat):
+            return ("definition-lost", lost)
         return ("not-error-free", None)
     vi, vb = value_of(inc[-2]), value_of(bat[0])
     if vb is not None and vb.startswith("Loaded ") and "evaluated to" not in (bat[0].get("value") or ""):
@@ -171,6 +219,9 @@ FIXED = [
     (["struct P { x: Int }", "let p = P{ x: 1 }", "p.x"], ["p"]),
     (["let a = 1", "{ let inner = 5 a = inner }", "a"], ["a"]),
     (["let a = 1", "(a)", "a + 1"], ["a"]),
+    (["struct Q { n: Int }", "method inc(this: Q): Int { this.n + 1 }", "let q = Q{ n: 41 }", "q.inc()"], []),
+    (["method inc2(this: Q2): Int { this.n + 1 }", "struct Q2 { n: Int }", "let q2 = Q2{ n: 41 }", "q2.inc2()"], []),
+    (["method idx(this: Sh): Int { match this { Ci(r) => r, Sq => 0 } }", "enum Sh { Ci(Int), Sq }", "Ci(7).idx()"], []),
 ]
 
 
